@@ -303,10 +303,12 @@ def run(ctx):
         ctx.ob('C09.R4', 'bisection:direction', dir_ok,
                'a positive total charge moves the lower bound up, otherwise the upper bound down '
                '(consistent with a non-increasing curve)', mc, ifs[0] if ifs else inner)
+        mid_texts = ('(%s+%s)/2' % (lo_p, hi_p), '(%s+%s)/2' % (hi_p, lo_p), '(%s+%s)/2.0' % (lo_p, hi_p))
         mids = [s for s in walk_no_nested(inner) if isinstance(s, ast.Assign)
-                and norm(s.value).replace(' ', '') in ('(%s+%s)/2' % (lo_p, hi_p),
-                                                       '(%s+%s)/2' % (hi_p, lo_p),
-                                                       '(%s+%s)/2.0' % (lo_p, hi_p))]
+                and norm(s.value).replace(' ', '') in mid_texts]
+        # ... or written where it is handed to the next step
+        mids += [c for c in calls_in(inner) if call_name(c) == inner.name and len(c.args) >= 2
+                 and norm(c.args[1]).replace(' ', '') in mid_texts]
         ctx.ob('C09.R4', 'bisection:midpoint', len(mids) == 1,
                'the next probe is the midpoint of the bracket', mc, mids[0] if mids else inner)
         # the recursion runs exactly under `precision < hi - lo`, the plain return
